@@ -11,10 +11,10 @@ import json
 import logging
 import contextlib
 
-from pybufrkit.errors import PyBufrKitError
+from pybufrkit.errors import PyBufrKitError, UnknownDescriptor
 from pybufrkit.coder import Coder, CoderState
 from pybufrkit.tables import TableGroupKey, TableGroupCacheManager
-from pybufrkit.descriptors import Descriptor
+from pybufrkit.descriptors import Descriptor, ElementDescriptor
 
 __all__ = ['loads_compiled_template', 'TemplateCompiler', 'CompiledTemplateManager', 'process_compiled_template']
 
@@ -263,6 +263,10 @@ class TemplateCompiler(Coder):
         # TODO: delayed repetition descriptor 031011, 031012
         if descriptor.id in (31011, 31012):
             raise NotImplementedError('delayed repetition descriptor')
+
+        if type(descriptor.factor) is not ElementDescriptor:
+            raise UnknownDescriptor('Cannot process descriptor {} of type: {}'.format(
+                descriptor.factor, type(descriptor.factor).__name__))
 
         self.process_element_descriptor(state, bit_operator, descriptor.factor)
         with state.new_loop(CoderMethodCall('get_value_for_delayed_replication_factor')):
